@@ -243,6 +243,23 @@ func genC19(c *Cfg, emit func([]string)) {
 		}
 		emit(h)
 	}
-	c.Rule = fmt.Sprintf("%d random histories: fee settings (share in {0,1,0.5%%,2.5%%,33.3%%,100%%,100%%+1}, floor, cap incl. 0 and cap<floor, own/foreign/unknown currency, rates, limits), user ids (same/different/none), funding {5,1000,1e5,1e12,2^128}, then 3..8 operations (transfer/buy/buyBack/predictFee) with amounts around every break point floor*1e8/share±1, cap*1e8/share±1, balance±1, 0; all balances (token, allowed USD/EUR) of 6 addresses dumped after every operation; non-trivial = contains a transfer/buy; distinct = sha256 of op+output", nHist)
+	// huge deals: amount x rate beyond 64 bits (prices must stay exact), both parties richly funded
+	huge := []string{"4294967296", "100000000000", "200000000000", "18446744073709551615", "18446744073709551616", "184467440737095516160000001", "1000000000000000000000000000000"}
+	rich := "1000000000000000000000000000000000000000000"
+	nHuge := 0
+	for _, rate := range []string{"100000000", "50000000", "250000000", "3", "99999999", "18446744073709551616"} {
+		for k := 0; k < len(huge); k++ {
+			if !c.Thorough() && (k+nHuge)%2 == 1 {
+				continue
+			}
+			a1, a2 := huge[k], huge[(k+3)%len(huge)]
+			emit([]string{"reset", "setrate buyToken USD " + rate, "setrate buyBack USD " + rate,
+				"fund I " + rich, "fund u0 " + rich, "fundalw u0 USD " + rich, "fundalw I USD " + rich, "bal",
+				"buy u0 " + a1 + " USD", "bal", "buyback u0 " + a2 + " USD", "bal", "buy u0 1 USD", "bal",
+				"setfeeaddr F", "setfee USD 2500000 0 0", "predict " + a1, "transfer u0 u1 " + a2, "bal"})
+			nHuge++
+		}
+	}
+	c.Rule = fmt.Sprintf("%d random histories: fee settings (share in {0,1,0.5%%,2.5%%,33.3%%,100%%,100%%+1}, floor, cap incl. 0 and cap<floor, own/foreign/unknown currency, rates, limits), user ids (same/different/none), funding {5,1000,1e5,1e12,2^128}, then 3..8 operations (transfer/buy/buyBack/predictFee) with amounts around every break point floor*1e8/share±1, cap*1e8/share±1, balance±1, 0; all balances (token, allowed USD/EUR) of 6 addresses dumped after every operation; non-trivial = contains a transfer/buy; distinct = sha256 of op+output; plus %d histories of huge deals (amounts 2^32..1e30 x rates incl. 2^64: every product beyond 64 bits) with richly funded parties", nHist, nHuge)
 	c.Extra = map[string]any{"histories": nHist}
 }
